@@ -1,4 +1,5 @@
 import Cpppo.Proofs.Session
+import Cpppo.Props.C07
 /-!
 # C06 — Exactly one matching reply per request, delivered in request order
 
@@ -160,6 +161,24 @@ theorem unsupported_nonzero (cfg : Cfg) (s : Srv) (f : Frame) (u : Bool) (i t : 
   rw [serveWith, hpe]
   simp [echo, hne]
 
+/-- **Failing tag requests are still answered in full.**  On a well-formed device (`Dev.WF`, the invariant of C05)
+a routable Read/Write Tag [Fragmented] request -- valid, or failing with any CIP status: unknown attribute, range,
+type mismatch -- is always answered by the full frame of `service_bit` (its reply can always be produced), and the
+device stays well-formed, so the same holds for every later request of the session. -/
+theorem tag_request_answered (cfg : Cfg) (s : Srv) (hwf : s.dev.WF) (f : Frame) (u : Bool) (i t : Nat) (w : Wrap)
+    (sreq : Simple) (raw : Bytes) (hs : isTagService sreq = true)
+    (hb : f.body = .send u i t w (.req (.simple sreq) raw))
+    (hr : routable cfg s.dev w (.req (.simple sreq) raw) = true) :
+    ∃ bs, (process cfg s f).2 = .reply (echo f f.hdr.status (sendFraming i t bs))
+      ∧ bs.head? = some (simpleService sreq ||| 0x80) ∧ (process cfg s f).1.dev.WF := by
+  obtain ⟨hwf', bs, hbs⟩ := execSimple_preserves_wf_tag s.dev hwf sreq (by cases sreq <;> simp_all [isTagService])
+  have he : exec s.dev (.simple sreq) = ((execSimple s.dev sreq).1, some bs) := by
+    simp only [exec, hbs]
+  obtain ⟨h1, h2⟩ := service_bit cfg s f u i t w (.simple sreq) raw _ bs hb hr he
+  refine ⟨bs, ?_, h2, ?_⟩
+  · rw [h1]; rfl
+  · rw [h1]; exact hwf'
+
 /-- a frame whose item list is not [null address, unconnected data] is refused in the same way -/
 theorem bad_items_refused (cfg : Cfg) (s : Srv) (f : Frame) (u : Bool) (i t : Nat) (items : List (Nat × Bytes))
     (hb : f.body = .sendItems u i t items) :
@@ -270,6 +289,21 @@ example : (serve {} demoSrv demoFrames).consumed = 5
 example : routable {} demoDev (.usend 6 1 5 157 [(1, 0)]) readA = true
     ∧ (exec demoDev (.simple (.readTag [.symbolic "A"] 2))).2 = some [0xcc, 0, 0, 0, 0xc3, 0, 7, 0, 8, 0] := by
   decide +kernel
+
+/-- `tag_request_answered` applies to the demo device -/
+example : demoDev.WF := by
+  intro c i a t h
+  unfold Dev.attr? Dev.obj? demoDev at h
+  simp only [objGet] at h
+  split at h
+  · simp only [Option.bind_some, Obj.attr?, attrGet] at h
+    split at h
+    · simp only [Option.some.injEq] at h; subst h
+      refine ⟨?_, by simp⟩
+      intro v hv; simp only [List.mem_cons, List.not_mem_nil, or_false] at hv
+      rcases hv with rfl | rfl | rfl <;> decide
+    · simp at h
+  · simp at h
 
 /-- hypotheses of `unsupported_nonzero`: a route path the personality refuses; an unknown tag -/
 example : routable { route := .only [(1, 0)] } demoDev (.usend 6 1 5 157 [(1, 1)]) readA = false
